@@ -260,7 +260,11 @@ func c192(c *an.Ctx, p *an.Prog) {
 			default:
 				r.bad = append(r.bad, fmt.Sprintf("notify path does not split pending at 0 (knows %d..%d)", lo, hi))
 			}
-			if pendStore == nil || !(pendStore.Op == "binop" && pendStore.Aux == "+" && pendStore.Args[0].K == pl && pendStore.Args[1].IsConst("1")) {
+			okCount := pendStore != nil && pendStore.Op == "binop" && pendStore.Aux == "+" && pendStore.Args[0].K == pl && pendStore.Args[1].IsConst("1")
+			if pendStore != nil && lo == hi && pendStore.IsConst(fmt.Sprint(lo+1)) {
+				okCount = true // pending is known to be lo on this path: storing the constant lo+1 counts the notification
+			}
+			if !okCount {
 				got := "<none>"
 				if pendStore != nil {
 					got = pendStore.K
